@@ -15,4 +15,4 @@ Definition src_mp_context (env arg : option Z) (dflt : Z) : option Z :=
   ctx.
 
 Definition pool_abort_passes_kwargs : bool := true.
-Definition loky_abort_passes_kwargs : bool := false.
+Definition loky_abort_passes_kwargs : bool := true.
